@@ -152,7 +152,7 @@ fn skymap_fits(depth: u8, pix: &[u64]) -> Vec<u8> {
 
 // ------------------------------------------------------------------ multi-order-map front end
 /// a multi-order map as a FITS file (UNIQ / PROBDENSITY columns), the format from_fits_multiordermap reads
-fn mom_fits(depth: u8, rows: &[(u64, f64)]) -> Vec<u8> {
+pub fn mom_fits(depth: u8, rows: &[(u64, f64)]) -> Vec<u8> {
   let mut b = Vec::new();
   for (k, v) in [("SIMPLE", "T"), ("BITPIX", "8"), ("NAXIS", "0"), ("EXTEND", "T")] {
     b.extend(card(k, v));
